@@ -19,7 +19,7 @@ func checkC07(r *Run) {
 	r4 := r.Rule("R-C07-4", "success (nil error) only through the request's own waiter")
 	r5 := r.Rule("R-C07-5", "SUBACK shape: count equality dominates the copy-back; ErrInvalidSubAck otherwise; same index both sides")
 	r1.Floor(5)
-	r4.Floor(4)
+	r4.Floor(8)
 	var sites []*reqSite
 	for _, s := range c.sitesOrLost(r1) {
 		if s.Kind == "publish" || s.Kind == "pubrel" || s.Kind == "subscribe" || s.Kind == "unsubscribe" {
@@ -27,7 +27,7 @@ func checkC07(r *Run) {
 		}
 	}
 	c.ruleRegisterBeforeWrite(r1, sites)
-	c.ruleThreeWaySelect(nil, r4, sites)
+	c.ruleThreeWaySelect(r4, r4, sites)
 	c.ruleServeRouting(r2, r3)
 	c.ruleSubAckShape(r5)
 }
